@@ -292,3 +292,12 @@ def decrypt_kept(ctx):
 def witness_private(ctx):
     from .. import witness
     witness.check(ctx, ['MasterKeyRepresentationIsPrivate', 'PublicKeyRepresentationIsPrivate'])
+
+
+@rule('C06', 'wire', configs=('default', 'p256'))
+def wire(ctx):
+    """'...including after serialization': the status of an attribute and the activation flag of every
+    secret round-trip (C13 rules restricted to the objects that carry them)."""
+    from . import c13
+    c13.restricted(ctx, r'(dimension::Attribute|dimension::Dimension|AccessStructure|core::MasterSecretKey|core::RightSecretKey)$',
+                   [c13.agree, c13.fields, c13.order])
